@@ -34,8 +34,7 @@ theorem mux_hold (n : Nat) (z : Tok α) (i i' : MuxIn α)
       rw [getD_map_range n i.sel _ false hlt]
       simp [hr]
     have hp := hprod i.sel hv' hrd
-    have hlt' : i'.sel < n := by rw [hs]; exact hlt
-    simp only [muxOut, hlt, hlt', if_true, hs, hp]
+    simp only [muxOut, hlt, if_true, hs, hp]
     simp
   · simp [muxOut, hlt] at hv
 
